@@ -340,7 +340,13 @@ class Gen:
         d = self.d
         src = (self.V.get(pool) or extra) if d.chance(0.8) else extra
         w = str(d.choice(src))
-        if d.chance(0.3) and len(w) > 2:
+        if d.chance(0.08) and len(w) > 3:
+            # near miss: the literal text before and after the * overlaps in the word (`wl_s*surface` against `wl_surface`:
+            # prefix `wl_s` and suffix `surface` both fit, but not one after the other)
+            i = d.int(1, len(w) - 2)
+            j = d.int(i + 1, len(w) - 1)
+            w = w[:j] + '*' + w[i:]
+        elif d.chance(0.3) and len(w) > 2:
             mode = d.int(0, 3)
             if mode == 1:       # near miss: matches a proper prefix of a vocabulary word only
                 w = w[:d.int(2, len(w) - 1)]
